@@ -23,12 +23,30 @@ PROPS = {
         scope="VM arms for + - * / % ^ and their immediate forms against the mathematical spec of C15",
         assumptions=[],
     ),
+    "C24": dict(
+        units=["u16_prelude", "u1_int"],
+        level="proof",
+        level_text=("Prelude Equal/Ord/Hash impls for bool, void and 2-4-tuples are cut from modules/prelude.abra by name on each run, "
+                    "parsed by a subset parser mirroring parse.rs, symbolically evaluated, and each law (equivalence, le<=>not lt swapped, "
+                    "ge<=>le swapped, gt<=>lt swapped, totality, lt irreflexive/transitive/consistent with equal, equal=>equal hashes) "
+                    "is discharged by Z3 for all values (tuples: for every lawful component type). int comparisons are the VM arms "
+                    "LessThanInt..EqualInt(Imm), proved by Verus to store exactly a<b, a<=b, a>b, a>=b, a==b over mathematical integers, "
+                    "from which the order laws are immediate; `!=` is shown syntactically to be Equal followed by Not."),
+        level_note=("Narrower than the statement: arrays (Equal/Hash) and Hash for string contain loops in Abra source and are not claimed; "
+                    "float and string comparison arms are covered by C16/C17's units. Trusted: U16's own parser/evaluator (refuses anything "
+                    "outside its subset; mutant self-test, cvc5 cross-check and differential test against the real CLI in the thorough tier), "
+                    "Z3, Verus, impl selection/monomorphisation by the type checker. Syntactic obligations (C24.prelude.{int,float,string}.*_delegates, "
+                    "C24.codegen.*) prove code shape, not values."),
+        technique="own VC generator for the loop-free Abra subset -> Z3, plus Verus proofs of the VM comparison arms",
+        scope="bool, void, tuples up to 4 (for lawful components), int; arrays excepted",
+        assumptions=[],
+    ),
 }
 
 NOT_APPLICABLE = {
     "C01": PENDING, "C04": PENDING, "C05": PENDING, "C06": PENDING, "C07": PENDING, "C08": PENDING,
     "C09": PENDING, "C10": PENDING, "C11": PENDING, "C13": PENDING, "C16": PENDING, "C17": PENDING,
-    "C18": PENDING, "C24": PENDING, "C26": PENDING, "C29": PENDING, "C30": PENDING, "C31": PENDING,
+    "C18": PENDING, "C26": PENDING, "C29": PENDING, "C30": PENDING, "C31": PENDING,
     "C32": PENDING, "C33": PENDING, "C37": PENDING, "C38": PENDING,
     "C02": "needs a semantics-preservation proof of translate_expr/translate_stmt (3 kLoC AST recursion over Rc/HashMap/StaticsContext); no function-level contract short of compiler correctness expresses it",
     "C03": "reachability of unwrap/unreachable!/unimplemented! in the translator from every typed AST: no function-level precondition on StaticsContext can be stated and discharged with Verus/Kani",
